@@ -14,6 +14,7 @@ import StarsimModel.Generated.HazardExprs
 import StarsimModel.Generated.TimeDecls
 import StarsimModel.Generated.StepClocks
 import StarsimModel.Generated.ParsUpdate
+import StarsimModel.Generated.TableIndex
 
 namespace StarsimModel.Hazard
 open StarsimModel.TimePar
@@ -288,5 +289,28 @@ def overrideInit (table : List (String × String)) (k : Kind) (v0 : Val Rat) (de
     match mergeTimepar table old new with
     | .error e => .error e
     | .ok p => parInit p pu pdt updVals
+
+
+/-! ## Round 6: the index columns of a data table between the table as WRITTEN and the lookup (`ss.standardize_data`) -/
+
+/-- operations of `standardize_data` that leave the written values of a present column as they are -/
+def indexOpKeeps (op : String) : Bool := op == "copy" || op == "default" || op == "move"
+
+/-- every statement that writes column `col` (or all columns) keeps the written values -/
+def columnKept (ops : List (String × String)) (col : String) : Bool :=
+  ops.all (fun kop => !(kop.1 == col || kop.1 == "*") || indexOpKeeps kop.2)
+
+/-- the values of column `col` the lookup sees: the written ones, or — when some statement rewrites the column — whatever that
+    statement makes of them (`f`, arbitrary) -/
+def standardizeCol (ops : List (String × String)) (col : String) (f : Rat → Rat) (written : List Rat) : List Rat :=
+  if columnKept ops col then written else written.map f
+
+/-- the row `Deaths` / `Births` apply at time `now`: nearest of the STORED reference times -/
+def tableRow (ops : List (String × String)) (f : Rat → Rat) (written : List Rat) (now : Rat) : Nat :=
+  nearest (standardizeCol ops "year" f written) now
+
+/-- the age bin applied to an agent: over the STORED age starts -/
+def tableBin (ops : List (String × String)) (f : Rat → Rat) (written : List Rat) (age : Rat) : Nat :=
+  ageBin (standardizeCol ops "age" f written) age
 
 end StarsimModel.Hazard
